@@ -40,7 +40,7 @@ def histories(ctx, b, bn, hist, steps):
                 shutil.copy(tr, dst)
                 ctx.violation("dsp:history-rejected:%s:%s" % (typ, bn), st.get("detail", "")[:700],
                               {"trace": dst, "type": typ, "build": bn, "spec": "dsp/FourierObjTrace.tla"})
-    ctx.parallel([lambda t=t: one(t) for t in TYPES], width=5)
+    return [lambda t=t: one(t) for t in TYPES]
 
 
 ALLK = ["C.coef", "C.seq", "FFT.coef", "FFT.seq", "DCT.t", "DST.t", "QW.cosc", "QW.coss", "QW.sinc", "QW.sins"]
@@ -53,15 +53,16 @@ def tlaset(xs):
 
 def exact_stages(ctx, bins, builds, th):
     """(name, kinds, nlo, nhi, fams): family 0 = all exactly computable impulse positions at once (+ the dense
-    inverse case), 1..4 = single positions, 5,6 = seed-chosen impulse position with masked outputs, 7,8 = dense
-    data for n <= 4."""
-    allf = list(range(9))
+    inverse case), 1..4 = single positions, 5,6 = seed-chosen impulse position with masked outputs, 7..12 = dense
+    data for n <= 4, 20 = weighted combs of every step dividing n."""
+    allf = list(range(13)) + [20]
     shards = []
     # every length up to 512, cost grows with n: ranges of about equal total length
     for lo, hi in ((1, 256), (257, 362), (363, 443), (444, 512)):
-        shards.append(("all kinds n=%d..%d fam %s" % (lo, hi, "0-8" if th else "0"), ALLK, lo, hi, allf if th else [0]))
+        shards.append(("all kinds n=%d..%d fam %s" % (lo, hi, "0-12,20" if th else "0,20"), ALLK, lo, hi,
+                       allf if th else [0, 20]))
     if not th:
-        shards.append(("all kinds n=1..40 fam 1-8", ALLK, 1, 40, allf[1:]))
+        shards.append(("all kinds n=1..40 fam 1-12", ALLK, 1, 40, allf[1:13]))
         w = 41 + (ctx.seed * 53) % 440          # a seed-chosen window of lengths gets the other families too
         shards.append(("all kinds n=%d..%d fam 1-6 (seed window)" % (w, w + 23), ALLK, w, w + 23, [1, 2, 3, 4, 5, 6]))
     shards.append(("radix-2/4 n=1..%d" % (4096 if th else 1024), RADK, 1, 4096 if th else 1024, allf))
@@ -71,7 +72,7 @@ def exact_stages(ctx, bins, builds, th):
                         subst=dict(KINDS=tlaset(kinds), NLO=lo, NHI=hi, SEED=ctx.seed, FAMS=tlaset(fams), EMIT="TRUE"))
         for bn, _ in builds:
             ctx.replay(bins[bn], "dsp-exact", cases, [], name="R2 replay exact sums %s [%s]" % (name, bn))
-    ctx.parallel([lambda a=a: one(*a) for a in shards], width=4)
+    return [lambda a=a: one(*a) for a in shards]
 
 
 def run(ctx):
@@ -79,41 +80,53 @@ def run(ctx):
     builds = [("default", ""), ("bounds", "bounds")]
     bins = {n: ctx.build(t) for n, t in builds}
 
+    thunks = []
     # ---- R1 ---------------------------------------------------------------
-    ctx.tlc("dsp/FourierObj.tla", "dsp/FourierObj_model.cfg", workers=4, coverage=True,
-            name="R1 FourierObj: 2 objects, FFT+DCT, lengths 1..3, 2 tokens, 3 transforms",
-            subst=dict(OBJS="{0,1}", TYPES='{"FFT","DCT"}', LENS="{1,2,3}", INPUTS="{0}", TOKENS='{"a","b"}',
-                       MAXSTEPS=3))
+    thunks.append(lambda: ctx.tlc(
+        "dsp/FourierObj.tla", "dsp/FourierObj_model.cfg", workers=4, coverage=True,
+        name="R1 FourierObj: 2 objects, FFT+DCT, lengths 1..3, 2 tokens, 3 transforms",
+        subst=dict(OBJS="{0,1}", TYPES='{"FFT","DCT"}', LENS="{1,2,3}", INPUTS="{0}", TOKENS='{"a","b"}', MAXSTEPS=3)))
     if th:
-        ctx.tlc("dsp/FourierObj.tla", "dsp/FourierObj_model.cfg", workers=4,
-                name="R1 FourierObj: 1 object, CmplxFFT+QW, lengths 1..2, 2 inputs, 4 transforms",
-                subst=dict(OBJS="{0}", TYPES='{"CmplxFFT","QW"}', LENS="{1,2}", INPUTS="{0,1}", TOKENS='{"a","b"}',
-                           MAXSTEPS=4), timeout=1500)
+        thunks.append(lambda: ctx.tlc(
+            "dsp/FourierObj.tla", "dsp/FourierObj_model.cfg", workers=4,
+            name="R1 FourierObj: 1 object, CmplxFFT+QW, lengths 1..2, 2 inputs, 3 transforms",
+            subst=dict(OBJS="{0}", TYPES='{"CmplxFFT","QW"}', LENS="{1,2}", INPUTS="{0,1}", TOKENS='{"a","b"}',
+                       MAXSTEPS=3), timeout=1500))
+
+    # ---- R1+R2: exact defining sums (the long generator runs start first) ----
+    thunks = exact_stages(ctx, bins, builds, th) + thunks
 
     # ---- R3: object histories ---------------------------------------------
     for bn, _ in builds:
-        histories(ctx, bins[bn], bn, 40 if th else 10, 50)
+        thunks += histories(ctx, bins[bn], bn, 100 if th else 12, 50)
 
     # ---- R1+R2: index helpers ----------------------------------------------
-    nhi = 1100 if th else 600
-    idx = ctx.gen("dsp/FftIndex.tla", "dsp/FftIndex.cfg", name="R1+R2 gen index helpers n<=%d" % nhi,
-                  subst=dict(NLO=0, NHI=nhi, RANKMAX=48 if th else 32, EMIT="TRUE"))
-    for bn, _ in builds:
-        ctx.replay(bins[bn], "dsp-index", idx, [], name="R2 replay index helpers [%s]" % bn)
-
-    # ---- R1+R2: exact defining sums ----------------------------------------
-    exact_stages(ctx, bins, builds, th)
+    def index():
+        nhi = 1100 if th else 600
+        idx = ctx.gen("dsp/FftIndex.tla", "dsp/FftIndex.cfg", name="R1+R2 gen index helpers n<=%d" % nhi,
+                      subst=dict(NLO=0, NHI=nhi, RANKMAX=48 if th else 32, EMIT="TRUE"))
+        for bn, _ in builds:
+            ctx.replay(bins[bn], "dsp-index", idx, [], name="R2 replay index helpers [%s]" % bn)
+    thunks.append(index)
+    ctx.parallel(thunks, width=5 if th else 6)
 
     ctx.assumptions += [
         "TLC/SANY and the CommunityModules Json module are trusted",
         "results are identified by a 64-bit FNV-1a hash of their IEEE bit patterns (a collision could hide a difference)",
         "the harness's slice plumbing (dst nil / fresh / same, pointer comparison for 'dst is returned', bit comparison "
-        "for 'src unchanged') is trusted",
+        "for 'src unchanged') and its big.Rat tolerance comparison are trusted",
+        "exact vectors: the documented sums are taken from the FFTPACK definitions (1-based) the package translates; "
+        "dense inputs rely on the inversion theorems, which TLC checks only where the dense sum is itself computable "
+        "(n <= 12 with rational angles)",
+        "exact vectors are compared within 2048*n*2^-52*|x|_1 (rounding of the O(n log n)..O(n p) algorithms)",
     ]
     return ctx.finish(
         rule="R3: one case = one successful transform call of a recorded history (incl. its mirror on a brand-new "
              "object); non-trivial = the same (kind, n, input) had already been answered in this history before the "
-             "object was Reset or replaced in between; one trace = one 50-operation history of one object.",
+             "object was Reset or replaced in between; one trace = one 50-operation history of one object. "
+             "R2 exact sums: one case = one call of a transform (one calling variant) on one TLC-printed integer "
+             "vector, all unmasked outputs compared; non-trivial = some expected output is non-zero. R2 index: one "
+             "case = one helper's whole table for one n (or one must-panic call, or one Pad/Trim call).",
         exhaustive=False)
 
 
